@@ -33,13 +33,13 @@ import (
 func init() { registry["C15"] = runC15 }
 
 type c15Cfg struct {
-	Kind     string `json:"cache"`
-	MaxSize  int    `json:"maxsize"`
-	Keys     int    `json:"keys"`
-	Workers  int    `json:"workers"`
-	TTLs     string `json:"ttls"`
-	FailPct  int    `json:"secondary_failure_percent"`
-	Deletes  bool   `json:"with_deletes"`
+	Kind    string `json:"cache"`
+	MaxSize int    `json:"maxsize"`
+	Keys    int    `json:"keys"`
+	Workers int    `json:"workers"`
+	TTLs    string `json:"ttls"`
+	FailPct int    `json:"secondary_failure_percent"`
+	Deletes bool   `json:"with_deletes"`
 }
 
 type c15Want struct {
